@@ -1,5 +1,5 @@
 """C11 — CVec is observationally a Vec.
-Case format: '11 <elem> | op ; op ; ...'  elem: 0=1-byte 1=8-byte 2=heap-owning(Box) 3=zero-sized 4=3-byte 5=64 bytes aligned to 64;
+Case format: '11 <elem> | op ; op ; ...'  elem: 0=1-byte 1=8-byte 2=heap-owning(Box) 3=zero-sized 4=3-byte 5=64 bytes aligned to 64 6=8 bytes whose Clone panics for values ending in 13;
 ops: '0 x' push, '1' pop, '2 i x' insert, '3 i' remove, '4 n' reserve, '5' clone-and-replace (old dropped),
 '6 i x' v[i]=x, '7 spare x..' replace by CVec::from(Vec with spare capacity), '8' read.
 Output rows come in pairs per op: result row ('.. 9' = panicked) and the values whose destructor ran, in order;
@@ -19,7 +19,7 @@ TRUSTED = [
 ASSUMPTIONS = ["Vec::reserve honours its documented contract", "rustc code generation, the system allocator"]
 
 ALPHA = [[0, 11], [0, 12], [1], [2, 0, 21], [2, 1, 22], [2, 5, 23], [3, 0], [3, 1], [3, 7], [4, 3], [5], [6, 0, 31], [6, 4, 32], [8]]
-ELEMS = [0, 1, 2, 3, 4, 5]
+ELEMS = [0, 1, 2, 3, 4, 5, 6]
 
 
 def fix_vals(elem, ops):
@@ -63,7 +63,7 @@ def exhaustive(elem, maxlen):
 def random_script(rng, maxlen, elem):
     n = rng.range(1, maxlen)
     ops, ln = [], 0
-    vmax = 255 if elem == 0 else (2 ** 24 - 1 if elem == 4 else 10 ** 6)
+    vmax = 255 if elem == 0 else (2 ** 24 - 1 if elem == 4 else (40 if elem == 6 else 10 ** 6))     # elem 6: values 13 (whose Clone panics) are frequent
     if rng.chance(1, 3):
         k = rng.range(0, 6)
         ops.append([7, rng.range(0, 4)] + [rng.range(0, vmax) for _ in range(k)])
@@ -100,7 +100,7 @@ def random_script(rng, maxlen, elem):
 def gen_cases(rng, tier):
     cases = []
     if tier == "quick":
-        ex = {2: 3, 0: 3, 1: 2, 3: 3, 4: 2, 5: 2}
+        ex = {2: 3, 0: 3, 1: 2, 3: 3, 4: 2, 5: 2, 6: 2}
         nrand, maxlen = 1500, 60
     elif tier == "search":
         ex = {2: 2}
